@@ -340,4 +340,6 @@ def isar_expressible(schema):
         if isinstance(d, Struct):
             if any(m.kind == GREEDY for m in d.members):
                 return False
+        if isinstance(d, Enum) and len(set(m[1] for m in d.members)) != len(d.members):
+            return False        # isar refuses enumerators that repeat a value
     return True
